@@ -1524,6 +1524,17 @@ impl Config {
             return Err(Error::BadConfig);
         }
 
+        // Both become the period of a timer, which cannot be zero.
+        if self.general.autoreload == Some(0) {
+            error!("autoreload must be greater than 0 (leave it out to disable it)");
+            return Err(Error::BadConfig);
+        }
+
+        if self.general.shutdown_timeout == 0 {
+            error!("shutdown_timeout must be greater than 0");
+            return Err(Error::BadConfig);
+        }
+
         // Validation for auth_query feature
         if self.general.auth_query.is_some()
             && (self.general.auth_query_user.is_none()
